@@ -4,6 +4,7 @@ import (
 	"bytes"
 	"fmt"
 	"reflect"
+	"strings"
 	"unsafe"
 
 	"github.com/wolimst/lib-secs2-hsms-go/pkg/ast"
@@ -161,6 +162,124 @@ func init() {
 						}
 					}})
 			}
+			// headers stay exact when items are encoded one after the other and inside each other: every ordered pair of
+			// small items (14 formats x 0..3 elements): the first one's bytes are kept while the second is encoded, both are
+			// nested in lists with equal and different counts, and the header routine's result is extended by the caller
+			smallN := 4
+			sp = append(sp, h.Space{Name: "headers-of-items-encoded-in-turn-and-nested", Count: product(14, smallN, 14, smallN),
+				Describe: func(i uint64) interface{} {
+					d := unrank(i, 14, smallN, 14, smallN)
+					return fmt.Sprintf("%s[%d] then %s[%d]: bytes of the first kept, both nested in lists", ref.Kinds[d[0]], d[1], ref.Kinds[d[2]], d[3])
+				},
+				Run: func(c *h.Ctx, i uint64) {
+					d := unrank(i, 14, smallN, 14, smallN)
+					k1, n1, k2, n2 := ref.Kinds[d[0]], d[1], ref.Kinds[d[2]], d[3]
+					expect := func(k ref.Kind, n int) []byte {
+						out := ref.ItemHeader(k, n*k.Width(), 0)
+						if k == ref.L {
+							out = ref.ItemHeader(k, n, 0)
+						}
+						for j := 0; j < n; j++ {
+							out = append(out, elemBytes(k)...)
+						}
+						return out
+					}
+					it1, it2 := buildSized(k1, n1), buildSized(k2, n2)
+					in := fmt.Sprintf("%s[%d] and %s[%d]", k1, n1, k2, n2)
+					b1 := it1.ToBytes()
+					b2 := it2.ToBytes()
+					b1again := it1.ToBytes()
+					c.Ops(3)
+					w1, w2 := expect(k1, n1), expect(k2, n2)
+					if !bytes.Equal(b1, w1) || !bytes.Equal(b2, w2) || !bytes.Equal(b1again, w1) {
+						c.Fail("bytes-of-items-encoded-in-turn", in, fmt.Sprintf("first (kept) %x, second %x, first again %x; want %x and %x", b1, b2, b1again, w1, w2))
+					}
+					// nested: <L it1 <L it2 it1> it2 <L it1 it2>>
+					nest := ast.NewListNode(it1, ast.NewListNode(it2, it1), it2, ast.NewListNode(it1, it2))
+					wn := append([]byte{0x01, 0x04}, w1...)
+					wn = append(append(append(wn, 0x01, 0x02), w2...), w1...)
+					wn = append(wn, w2...)
+					wn = append(append(append(wn, 0x01, 0x02), w1...), w2...)
+					if got := nest.ToBytes(); !bytes.Equal(got, wn) {
+						c.Fail("bytes-of-nested-items", "<L a <L b a> b <L a b>> with a="+in, fmt.Sprintf("%x want %x", got, wn))
+					}
+					c.Ops(1)
+					// the header routine hands out a slice the caller may extend
+					h1, e1 := ast.VerifHeaderBytes(k1.LibName(), n1)
+					if e1 == nil {
+						h1 = append(h1, 0xAA, 0xAA, 0xAA, 0xAA, 0xAA, 0xAA, 0xAA, 0xAA)
+						for j := range h1 {
+							h1[j] = 0xAA
+						}
+						h2, _ := ast.VerifHeaderBytes(k1.LibName(), n1)
+						want := ref.ItemHeader(k1, n1*k1.Width(), 0)
+						if !bytes.Equal(h2, want) {
+							c.Fail("header-bytes-after-the-caller-extended-an-earlier-result", fmt.Sprintf("getHeaderBytes(%q,%d)", k1.LibName(), n1), fmt.Sprintf("=%x want %x", h2, want))
+						}
+						c.Ops(2)
+					}
+					c.Case(0, true, "in-turn")
+				}})
+			// A items that hold characters above 0x7F (as text or as received bytes): refused - or, where an implementation
+			// accepts them, the length in the header is still the number of body bytes that follow, equals Size(), decodes
+			// back to an equal item, and the limit is still count x width
+			hi := []string{"\u00b5m", "\u00e9", "caf\u00e9", "\u00ff\u00fe", "a\u0080", "\u0100", "\u20ac", "\xb5m", "\xe9", "\xff"}
+			hiN := []int{1, 2, 127, 128, 200, 255, 256, 65535, 65536}
+			sp = append(sp, h.Space{Name: "ascii-items-with-characters-above-0x7F", Count: product(len(hi), len(hiN), 2),
+				Describe: func(i uint64) interface{} {
+					d := unrank(i, len(hi), len(hiN), 2)
+					return fmt.Sprintf("A item of %d x %q (%s)", hiN[d[1]], hi[d[0]], []string{"NewASCIINode", "decoded from the bytes"}[d[2]])
+				},
+				Run: func(c *h.Ctx, i uint64) {
+					d := unrank(i, len(hi), len(hiN), 2)
+					str := strings.Repeat(hi[d[0]], hiN[d[1]])
+					in := fmt.Sprintf("A item of %d x %q", hiN[d[1]], hi[d[0]])
+					var it ast.ItemNode
+					if d[2] == 0 {
+						var pan string
+						it, pan = tryItem(func() ast.ItemNode { return ast.NewASCIINode(str) })
+						c.Ops(1)
+						if pan != "" {
+							c.Case(0, true, "refused")
+							return
+						}
+					} else {
+						msg := append([]byte{0, 0, 0, 0, 0, 9, 0x01, 0x01, 0, 0, 1, 2, 3, 4}, ref.ItemHeader(ref.A, len(str), 0)...)
+						msg = setLen(append(msg, str...))
+						m, ok := hsms.Parse(msg)
+						c.Ops(1)
+						if !ok || m == nil {
+							c.Case(0, true, "refused")
+							return
+						}
+						in += " decoded from " + h.Hex(truncB(msg, 40))
+						it = msgItem(m.(*ast.DataMessage))
+					}
+					b := it.ToBytes()
+					nlen := int(b[0] & 3)
+					decl := 0
+					for j := 0; j < nlen; j++ {
+						decl = decl<<8 | int(b[1+j])
+					}
+					body := len(b) - 1 - nlen
+					switch {
+					case b[0]&0xFC != 0x40 || nlen == 0:
+						c.Fail("accepted-item-header", in, fmt.Sprintf("format byte %02x", b[0]))
+					case decl != body:
+						c.Fail("accepted-item-length-field", in, fmt.Sprintf("header declares %d bytes, %d follow (%x...)", decl, body, truncB(b, 12)))
+					case it.Size() != body:
+						c.Fail("accepted-item-size", in, fmt.Sprintf("Size()=%d but %d body bytes", it.Size(), body))
+					case (body > 255) != (nlen > 1) || (body > 65535) != (nlen > 2):
+						c.Fail("accepted-item-length-bytes", in, fmt.Sprintf("%d length bytes for %d body bytes", nlen, body))
+					default:
+						msg := setLen(append([]byte{0, 0, 0, 0, 0, 9, 0x01, 0x01, 0, 0, 1, 2, 3, 4}, b...))
+						if m, ok := hsms.Parse(msg); !ok || m == nil || !bytes.Equal(m.ToBytes(), msg) {
+							c.Fail("accepted-item-does-not-decode-back", in, fmt.Sprintf("hsms.Parse of its own encoding (%x...) ok=%v", truncB(msg, 24), ok))
+						}
+					}
+					c.Ops(2)
+					c.Case(0, true, "accepted-and-consistent")
+				}})
 			// lane patterns: every size whose byte length has 00/01/7F/80/FF in each lane
 			lane := []int{0x00, 0x01, 0x7F, 0x80, 0xFF}
 			sp = append(sp, h.Space{Name: "header-lane-patterns", Count: product(14, 5, 5, 5),
